@@ -332,6 +332,8 @@ class Exec(ExprMixin, AccessMixin, CallMixin, StmtMixin, SpecMixin, HeapMixin, O
         if hook:
           hook(self, s, r)
       for g in sorted(con.ghost_const):
+        if g not in con.ghost_:
+          continue          # defined by a model hook of the contract file (e.g. the serialization the fs model compares with)
         a, b = old.ghost.get(g), s.ghost.get(g)
         if a is not None and b is not None and hasattr(a, 't') and not a.t.eq(b.t):
           ctx.obligations.append(Obligation('%s/ghost.%s_is_left_unchanged' % (ctx.unit, g), 'frame', list(s.pc), a.t == b.t, '', {}))
